@@ -19,3 +19,8 @@ func VerifNewManager(walletId string) *KeystoreManager {
 func VerifAddAddress(km *KeystoreManager, walletId, addr string) {
 	km.managedKeystores[walletId].addrs[addr] = &ManagedAddress{address: addr, keystoreName: walletId}
 }
+
+// VerifAddAddressWithHash registers an address of walletId by its text, with its script hash.
+func VerifAddAddressWithHash(km *KeystoreManager, walletId, addr string, scriptHash []byte) {
+	km.managedKeystores[walletId].addrs[addr] = &ManagedAddress{address: addr, keystoreName: walletId, scriptHash: scriptHash}
+}
